@@ -268,6 +268,7 @@ def lattice_shift(xyz32, cell, seed):
 
 
 _CELLS = {}
+_MICR = {}
 
 
 def cells(quick):
@@ -310,7 +311,12 @@ def judge_traj(spec, xyz32, cellrec, opts_bh, opts_wn, stats, recs):
         per = bool(per and cellv is not None)
         if per not in geo_cache:
             c = cellv if per else None
-            geo_cache[per] = (hr.hbond_geometry(x64, T[("trip", False, False, False)], c), hr.err_model(x64, c))
+            R = 2
+            if per:
+                if cellrec["name"] not in _MICR:
+                    _MICR[cellrec["name"]] = hr.mic_search_radius(cellv)
+                R = _MICR[cellrec["name"]]
+            geo_cache[per] = (hr.hbond_geometry(x64, T[("trip", False, False, False)], c, R), hr.err_model(x64, c))
         k = (ew, sc, per)
         if k not in geo_cache:
             g, err = geo_cache[per]
@@ -377,6 +383,8 @@ def judge_traj(spec, xyz32, cellrec, opts_bh, opts_wn, stats, recs):
             continue
         pres, amb, namb = hr.baker_hubbard_ref(g, freq, dc, ac, err)
         stats["amb_frames"] += namb
+        if not ew and not sc:
+            _site_outcomes(T, stats, "bh", tr, pres, amb)
         if sc and len(tr):
             # triplets with OXT acceptors are not required (documentation calls for side chains only) nor, under the
             # separate signature, silently accepted
@@ -400,9 +408,22 @@ def judge_traj(spec, xyz32, cellrec, opts_bh, opts_wn, stats, recs):
             continue
         for f in range(xyz32.shape[0]):
             p, a = pres[f], amb[f]
+            if not ew and not sc:
+                _site_outcomes(T, stats, "wn", tr, p, a)
             if sc and len(tr):
                 p, a = p & keep, a & keep
             compare("wernet_nilsson", call, got[f], tr, p, a, ew, sc, frame=f)
+
+
+def _site_outcomes(T, stats, fam, tr, pres, amb):
+    """Count, per site, how often the oracle decides its designed triplet present / absent / within margin."""
+    if "_siterow" not in T:
+        full = T[("trip", False, False, False)].tolist()
+        T["_siterow"] = [full.index([s["D"], s["H"], s["A"]]) for s in T["sites"]]
+    for s, r in zip(T["sites"], T["_siterow"]):
+        k = "%s %s" % (fam, s["label"])
+        o = stats["site_out"].setdefault(k, [0, 0, 0])
+        o[2 if amb[r] else (0 if pres[r] else 1)] += 1
 
 
 def _patterns(nmax, both_ends=True):
@@ -422,7 +443,7 @@ def _patterns(nmax, both_ends=True):
 
 def _new_stats():
     return dict(calls=0, excluded=0, amb_frames=0, judged_present=0, nsig={}, trajs=0, ks_pairs=0, ks_excl=0,
-                ks_bonds=0, ks_three_plus=0, ks_notjudged={}, ks_err=0.0, ks_calls=0)
+                ks_bonds=0, ks_three_plus=0, site_out={}, ks_notjudged={}, ks_err=0.0, ks_calls=0)
 
 
 _CTX = {}
@@ -822,6 +843,129 @@ def work_ks(item):
 
 
 # ------------------------------------------------------------------------------------------------------
+# Kabsch-Sander and memory outside the coordinate array (DESIGN C14 "S")
+
+_N0 = np.array([1.0, 1.0, 1.0])
+
+
+def _mem_case(kinds):
+    """Residue list from a string: P complete residue, W water (atom O only), L ligand (no N/CA/C/O names),
+    A acetyl-like cap (C and O only), X residue with N, CA, C but no O.  The residue after the odd one is placed so
+    that its N-H would hydrogen-bond to residue 0's C=O *if* the hydrogen pointed along +x."""
+    atoms, xyz, nco, ca = [], [], [], []
+
+    def add(resname, ri, lst):
+        idx = {}
+        for nm, el, pos in lst:
+            idx[nm] = len(atoms)
+            atoms.append((nm, el, resname, ri, ri))       # every residue its own chain (contiguous)
+            xyz.append(np.asarray(pos, float))
+        nco.append([idx.get("N", -1), idx.get("C", -1), idx.get("O", -1)])
+        ca.append(idx.get("CA", -1))
+
+    for k, kind in enumerate(kinds):
+        if kind == "P" and k == 0:       # acceptor: O 0.29 nm from the last residue's N along +x
+            add("ALA", k, [("N", "N", _N0 + [0.30, 0.05, 0.15]), ("CA", "C", _N0 + [0.42, 0.12, 0.10]),
+                           ("C", "C", _N0 + [0.41, 0.0, 0.0]), ("O", "O", _N0 + [0.29, 0.0, 0.0])])
+        elif kind == "P":
+            o = np.array([0.0, 0.0, 0.0]) if k == len(kinds) - 1 else np.array([0.0, 1.2 * k, 0.6])
+            add("ALA", k, [("N", "N", _N0 + o), ("CA", "C", _N0 + o + [-0.06, -0.13, 0.0]),
+                           ("C", "C", _N0 + o + [-0.2, -0.15, 0.0]), ("O", "O", _N0 + o + [-0.22, -0.27, 0.0])])
+        elif kind == "W":
+            add("HOH", k, [("O", "O", _N0 + [-0.3, 0.2, 0.0])])
+        elif kind == "L":
+            add("LIG", k, [("N1", "N", _N0 + [-0.3, 0.2, 0.0]), ("O1", "O", _N0 + [-0.35, 0.3, 0.0])])
+        elif kind == "A":
+            add("ACE", k, [("C", "C", _N0 + [-0.4, 0.2, 0.0]), ("O", "O", _N0 + [-0.3, 0.2, 0.0])])
+        elif kind == "X":
+            add("ALA", k, [("N", "N", _N0 + [-0.5, 0.3, 0.0]), ("CA", "C", _N0 + [-0.4, 0.3, 0.1]), ("C", "C", _N0 + [-0.3, 0.2, 0.0])])
+    return atoms, np.array(xyz, np.float32), nco, ca
+
+
+MEM_CASES = [("clean", "PPP", None), ("trailing-water", "PPW", None),
+             ("water-between", "PWP", "predecessor-without-C-or-O"), ("ligand-between", "PLP", "predecessor-without-C-or-O"),
+             ("no-O-between", "PXP", "predecessor-without-C-or-O"), ("first-residue-without-N", "APP", "first-residue-without-N")]
+
+
+def ks_sentinel(kinds, sentinel):
+    """md.kabsch_sander on a trajectory whose coordinate array is a view starting 3 floats into a larger buffer."""
+    import mdtraj as md
+    atoms, xyz, _nco, _ca = _mem_case(kinds)
+    top = ks_topology(atoms)
+    buf = np.zeros(3 + xyz.size, np.float32)
+    buf[:3] = sentinel
+    buf[3:] = xyz.ravel()
+    t = md.Trajectory(buf[3:].reshape(1, -1, 3), top)
+    shared = bool(np.shares_memory(t.xyz, buf))
+    return md.kabsch_sander(t)[0].toarray(), shared
+
+
+def ks_asan(ctx_repo, kinds, scratch):
+    """(status, text): status 'ok' | 'asan' | 'unavailable' | 'error'."""
+    import json
+    import os
+    import subprocess
+    from vlib import build
+    try:
+        so = build.build_kernlib("hbseam", ctx_repo, "asan")
+        libasan = subprocess.run(["gcc", "-print-file-name=libasan.so"], stdout=subprocess.PIPE, text=True).stdout.strip()
+    except Exception as e:  # noqa: BLE001
+        return "unavailable", str(e)[-300:]
+    if not os.path.isabs(libasan) or not os.path.exists(libasan):
+        return "unavailable", "libasan.so not found"
+    _atoms, xyz, nco, ca = _mem_case(kinds)
+    cf = os.path.join(scratch, "kscase-%s.json" % kinds)
+    with open(cf, "w") as fh:
+        json.dump(dict(xyz=[xyz.tolist()], nco=nco, ca=ca, pro=[0] * len(ca)), fh)
+    env = dict(os.environ, LD_PRELOAD=libasan, ASAN_OPTIONS="detect_leaks=0")
+    drv = os.path.join(os.path.dirname(os.path.abspath(hr.__file__)), "hbond_asan_driver.py")
+    try:
+        p = subprocess.run(["/venv/bin/python", drv, so, cf], env=env, stdout=subprocess.PIPE, stderr=subprocess.PIPE,
+                           text=True, timeout=300)
+    except subprocess.TimeoutExpired:
+        return "error", "timeout"
+    if "ERROR: AddressSanitizer" in p.stderr:
+        lines = [ln.strip() for ln in p.stderr.splitlines()]
+        head = [ln for ln in lines if "ERROR: AddressSanitizer" in ln][0]
+        kind = head.split("AddressSanitizer:")[1].split()[0]
+        frames = [ln.split(" in ", 1)[1] for ln in lines if ln.startswith("#") and "/geometry/src/" in ln][:2]
+        return "asan", "%s %s" % (kind, "; ".join(frames))
+    if p.returncode == 0 and "RESULT" in p.stdout:
+        return "ok", ""
+    return "error", (p.stderr or p.stdout)[-300:]
+
+
+def run_memory_family(ctx_repo, scratch, only=None):
+    """Returns (records, counts)."""
+    from concurrent.futures import ThreadPoolExecutor
+    recs, counts = [], dict(sentinel_cases=0, asan_cases=0, asan_available=True, sentinel_view_not_shared=0)
+    cases = [c for c in MEM_CASES if only is None or c[0] == only]
+    for name, kinds, cls in cases:
+        a, sh1 = ks_sentinel(kinds, [-0.3, 1.2, 1.0])       # "atom -1" one nm on the -x side of the water oxygen
+        b, sh2 = ks_sentinel(kinds, [1.7, 1.2, 1.0])        # ... on the +x side
+        counts["sentinel_cases"] += 1
+        if not (sh1 and sh2):
+            counts["sentinel_view_not_shared"] += 1        # mdtraj copied the array: the test cannot see anything
+        if not np.array_equal(a, b, equal_nan=True):
+            recs.append(("kabsch_sander|depends-on-memory-before-xyz|%s" % (cls or name),
+                         "residue list %s (%s): the result changes with the 3 floats stored in front of the coordinate array: "
+                         "%s vs %s" % (kinds, name, a[a != 0].round(4).tolist(), b[b != 0].round(4).tolist()),
+                         dict(family="ks-mem", case=name, sig="kabsch_sander|depends-on-memory-before-xyz|%s" % (cls or name))))
+    with ThreadPoolExecutor(6) as ex:
+        outs = list(ex.map(lambda c: ks_asan(ctx_repo, c[1], scratch), cases))
+    for (name, kinds, cls), (status, text) in zip(cases, outs):
+        if status == "unavailable":
+            counts["asan_available"] = False
+            continue
+        counts["asan_cases"] += 1
+        if status == "asan":
+            sig = "kabsch_sander|asan|read-before-xyz|%s" % (cls or name)
+            recs.append((sig, "residue list %s (%s): AddressSanitizer: %s" % (kinds, name, text), dict(family="ks-mem", case=name, sig=sig)))
+        elif status == "error":
+            recs.append(("kabsch_sander|asan-harness-error", "%s: %s" % (name, text), dict(family="ks-mem", case=name,
+                                                                                       sig="kabsch_sander|asan-harness-error")))
+    return recs, counts
+
 
 def run(ctx):
     _CTX.update(seed=ctx.seed, quick=ctx.quick)
@@ -848,7 +992,7 @@ def run(ctx):
         for gi in range(Gw):
             items.append(("wn", (0.25, 120.0), p, gi, None))
     for c in cells(quick):
-        for p in pats2:
+        for p in (pats2[:2] + pats2[-1:] if quick else pats2):
             for gi in range(Gw):
                 items.append(("wn", (0.25, 120.0), p, gi, c["name"]))
     res = ctx.pmap(work_bhwn, items, chunksize=8)
@@ -861,11 +1005,20 @@ def run(ctx):
             for a in range(0, F - L + 1):
                 kitems.append((idx, a, a + L))
     kres = ctx.pmap(work_ks, kitems, chunksize=2)
+    mrecs, mcounts = run_memory_family(ctx.repo, ctx.scratch)
+    ctx.report(mrecs)
+    if not mcounts["asan_available"]:
+        ctx.assume("AddressSanitizer runtime not available: the kernel-seam memory check was skipped")
     tot = _new_stats()
     for recs, st in list(res) + list(kres):
         ctx.report(recs)
         for k, v in st.items():
-            if isinstance(v, dict):
+            if k == "site_out":
+                for kk, vv in v.items():
+                    o = tot[k].setdefault(kk, [0, 0, 0])
+                    for q in range(3):
+                        o[q] += vv[q]
+            elif isinstance(v, dict):
                 for kk, vv in v.items():
                     tot[k][kk] = tot[k].get(kk, 0) + vv
             elif k == "ks_err":
@@ -874,7 +1027,8 @@ def run(ctx):
                 tot[k] += v
     T = topo()
     cov = {
-        "evaluations": tot["calls"] + tot["ks_calls"],
+        "evaluations": tot["calls"] + tot["ks_calls"] + 2 * mcounts["sentinel_cases"] + mcounts["asan_cases"],
+        "ks_memory_cases": {"residue_lists": [c[1] for c in MEM_CASES], **mcounts},
         "distinct_nontrivial": tot["trajs"] + len(kitems),
         "rule": "one evaluation = one call of baker_hubbard / one frame of a wernet_nilsson call / one kabsch_sander call whose "
                 "complete result set is compared with the float64 oracle; distinct non-trivial = distinct trajectories "
@@ -888,6 +1042,7 @@ def run(ctx):
         "ks_donor_acceptor_pairs_evaluated": tot["ks_pairs"], "ks_bonds_required": tot["ks_bonds"], "ks_donors_with_three_or_more_candidates": tot["ks_three_plus"],
         "ks_excluded_within_margin": tot["ks_excl"], "ks_not_judged": tot["ks_notjudged"],
         "triplets_required_present": tot["judged_present"],
+        "designed_site_triplet_outcomes_present_absent_margin": tot["site_out"],
         "excluded_triplets_within_margin": tot["excluded"], "ambiguous_triplet_frames": tot["amb_frames"],
         "max_err_over_tol": tot["ks_err"],
         "max_err_over_tol_note": "Kabsch-Sander energy values against the float32 error model; the set comparisons are exact",
@@ -906,7 +1061,10 @@ def replay(ctx, rep):
     outs = []
     for _ in range(2):
         stats, recs = _new_stats(), []
-        if rep["family"] == "ks":
+        if rep["family"] == "ks-mem":
+            r2, _c = run_memory_family(ctx.repo, ctx.scratch, only=rep["case"])
+            recs += r2
+        elif rep["family"] == "ks":
             atoms = [tuple(a) for a in rep["atoms"]]
             xyz = np.array(rep["xyz"], np.float32)
             judge_ks(rep["label"], atoms, xyz, rep["res"], 0, xyz.shape[0], stats, recs)
